@@ -42,7 +42,12 @@ TraceInit == m = <<>> /\ last = 0 /\ l = 1 /\ PrintT(<<"CELLS", Cardinality(Cell
 TraceNext ==
     /\ l <= Len(Trace) /\ l' = l + 1 /\ UNCHANGED vars
     /\ LET e == Trace[l] IN
-       IF ~WellFormed(e) THEN PrintT(<<"BADLINE", l>>)
+       IF e.section # ""
+       THEN \* a whole section of the example null or removed: any verdict, but a verdict
+            LET r == (IF e.crashed THEN {<<"crash", "section">>} ELSE {})
+                     \cup (IF ~e.accepted /\ ~e.crashed /\ Len(e.named) = 0 THEN {<<"unnamed", "section">>} ELSE {})
+            IN IF r = {} THEN TRUE ELSE PrintT(<<"NONCONF", l, r>>)
+       ELSE IF ~WellFormed(e) THEN PrintT(<<"BADLINE", l>>)
        ELSE LET r == Reasons(e) v == Vec(MutOf(e)) IN
             /\ IF r = {} THEN TRUE ELSE PrintT(<<"NONCONF", l, r>>)
             \* informational: stricter than documented / model expected a failure
